@@ -69,7 +69,7 @@ struct S {
   unsigned char* block = nullptr;   // file.size() bytes
   mjModel* m0 = nullptr;            // the unmodified model (loaded in the parent before forking)
   int exercise = 1;
-  int cpu_limit = 10;               // seconds of user CPU per fault point (hang guard)
+  int cpu_limit = 3;                // seconds of user CPU per fault point (hang guard)
 };
 
 // ------------------------------------------------------------------ enum names usable in the table
